@@ -24,12 +24,12 @@ check("C02", "bfs",
 check("C11", "enum",
       "exhaustive enumeration of boundary grids (messages x keys x (r,s) x pubkey byte shapes, all DER strings with <=2 grammar deviations, all MuSig2 signer lists/orders/tweak chains) against an independent math/big reference",
       "Every case runs on btcec/ecdsa/schnorr/musig2 and is compared with refec (affine big.Int secp256k1, ECDSA, BIP340, BIP327, DER grammar model) which is first bound to the shipped BIP340/BIP327/RFC6979 vectors.",
-      "Trusted: decred secp256k1 field/group arithmetic (module cache); values outside the boundary alphabets are not reached. Known finding: musig2 nonce encoding (ParseJacobian).",
+      "Trusted: decred secp256k1 field/group arithmetic (module cache); values outside the boundary alphabets are not reached. The musig2 nonce-encoding defect it found is repaired (known_findings.json, fixed). CombineSigs-style helpers are also checked for input preservation and repeatability.",
       "DESIGN.md §4 C11")
 check("C13", "enum",
       "exhaustive small-scope enumeration (tx lists 0..33, all coinbase layouts, all scripts <=3 tokens, all coinbase-height prefixes, lock-time/sequence-lock boundary products on real chains) against a naive reference",
       "Merkle roots through every construction path, witness commitment extraction/validation, weight, sigop cost, coinbase height extraction, finality and BIP68 sequence locks are compared with refmerkle (no btcd imports), bound first to 264 shipped blocks and tx_valid.json.",
-      "Trusted: sha256. Sequence locks: exported CalcSequenceLock on every best-chain tip of 10 lab chains, and (hook VerifCalcSequenceLockAt) calcSequenceLock from every block of an inactive side branch in 60 two-branch worlds.",
+      "Trusted: sha256. Sig-op cost kinds include witness programs spent with no / an empty witness. Sequence locks: exported CalcSequenceLock on every best-chain tip of 10 lab chains, and (hook VerifCalcSequenceLockAt) calcSequenceLock from every block of an inactive side branch in 60 two-branch worlds.",
       "DESIGN.md §4 C13")
 check("C15", "enum",
       "exhaustive enumeration of values (all VLQ < 2^21, all amounts < 10^6 + boundaries, script classes x curve points, entry/journal shapes) and of hostile byte strings (all strings <=3 bytes, VLQ-overflow family, every truncation) against an independent codec",
@@ -44,12 +44,12 @@ check("C16", "enum",
 check("C18", "vsched",
       "stateless exploration of thread schedules of the real peer code under a cooperative scheduler (all schedules with <=k deviations, deadlock/leak detection, schedule replay) + exhaustive enumeration of remote frame sequences against a reference handshake state machine + separate free-running -race pass",
       "peer.go is compiled through an overlay (sync->vsync, goroutines/channels/selects/timers hooked) regenerated from the current tree. (a) every sequence of <=3 (quick) / <=4 (thorough) remote frames over a 17-frame alphabet, both directions; (b) QueueMessage/QueueInventory callers vs Disconnect / remote close / write errors / inbound ping / trickle tick: FIFO on the wire, completion signalled exactly once for sends queued before the disconnect request, no goroutine left blocked after WaitForDisconnect.",
-      "Atomics are not scheduling points; timers fire only when the harness says so; deviation bound 2 (quick) / 3 (thorough); data races only via the separate -race pass (sampling, reported as such).",
+      "Atomics are not scheduling points; timers fire only when the harness says so; deviation bound 2 (quick; 3 for the inbound-ping and two-caller cases) / 3 (thorough); lifecycle cases cover a silent / version-only remote during the handshake ended by API disconnect, remote close or timeout, and a peer paired with itself. Unbuffered channels are modelled as a rendezvous; a construct the scheduler does not model stops the check as BROKEN-CHECK rather than passing. Data races only via the separate -race pass (sampling, reported as such). The stallHandler and handshake-queue defects it found are repaired (known_findings.json, fixed).",
       "DESIGN.md §4 C18, §3.1")
 check("C19", "enum",
       "exhaustive enumeration of handshake configurations (roles x garbage lengths x decoys), long packet schedules across rekeys and every single-position tampering of the stream, with an independent BIP324 implementation playing the other endpoint",
       "refbip324 (own ChaCha20/Poly1305/HKDF/ElligatorSwift over math/big) is bound to the shipped BIP324 vectors, then acts as the remote: session ids, every ciphertext byte, delivery order and contents must agree; any modification/truncation/reorder/duplication must be reported and never deliver altered plaintext.",
-      "Keys from a fixed pool; crypto/rand replaced by a seeded stream for reproducibility; thorough covers all garbage lengths 0..4095 per side.",
+      "Keys from a fixed pool; crypto/rand replaced by a seeded stream for reproducibility; thorough covers all garbage lengths 0..4095 per side. Packet schedules include contents at the 2^24 length limit; slices handed to / returned by the API are checked for later modification.",
       "DESIGN.md §4 C19")
 check("C20", "enum",
       "exhaustive enumeration (all multisets <=4/5 elements x P x M x keys, all query subsets, every 2^n matched subset of n-tx blocks, all murmur3 inputs <=2/3 bytes, bloom parameter grids) against independent BIP158/BIP37 references",
@@ -60,22 +60,22 @@ check("C20", "enum",
 check("C04", "crashdb+crash-images",
       "crash-point enumeration: (1) for every durable commit k of each workload (and, nested, every commit j of the recovery, also with a different cache size on restart) the process dies and the store is reopened; (2) for every prefix of the block-file I/O log x subsets of unsynced writes lost x torn last write x flush regime, the crash image is reopened through ffldb reconcile + blockchain.New; both compared with the naive fold",
       "Workloads (extension with spends and re-created txids, reorganisation there and back, invalid block, pruning with tiny block files) x utxo-cache sizes; after each reopen: no error, tip previously active, full UTXO universe == fold of the tip's chain, acknowledged blocks still known, re-feeding converges to the uninterrupted run.",
-      "goleveldb atomic/durable per commit; only bytes not covered by a later Sync may be lost or torn; subset caps reported; known findings: stored-but-unconnected block after a crash between store and connect commits; node cannot restart after a crash during pruning (files deleted before the metadata is durable).",
+      "goleveldb atomic/durable per commit (its observed write markers are part of the crash log); only bytes not covered by a later Sync may be lost or torn; subset caps reported. Known finding: a block stored but not yet connected when the process died is refused as a duplicate on re-delivery. The prune-ordering defect (node could not restart after a crash during pruning) is repaired (known_findings.json, fixed).",
       "DESIGN.md §4 C04")
 check("C07", "enum",
       "exhaustive enumeration of tx shapes x input index x every one-byte hash type x script codes x annex/codesep variants against independent legacy/BIP143/BIP341 digests; signer round trips and per-field commitment mutations through the real engine",
       "Digests byte for byte (fresh midstate, shared HashCache), SigCache cold/warm agreement, every helper of sign.go for 28 spend kinds verifies under StandardVerifyFlags, and a mutated field makes the signature fail iff the reference digest changes. refsighash is bound to sighash.json, tx_valid.json and the taproot-ref vectors.",
-      "Signature math itself is C11's subject; sha256 trusted.",
+      "Signature math itself is C11's subject; sha256 trusted. Inputs handed to the digest/sign helpers are private copies compared afterwards (no mutation of the caller's transaction); each mutation run uses its own SigCache; midstates are also computed before witnesses exist (signing flow).",
       "DESIGN.md §4 C07")
 check("C08", "enum",
       "exhaustive enumeration of per-field boundary domains for all 31 message types x 28 protocol versions x encodings against table-driven reference layouts, and of hostile byte strings (all strings <=2 bytes, every truncation / single-byte substitution / non-minimal or oversized count of each valid encoding) with allocation measurement in single-goroutine worker processes",
       "Encode == reference bytes, decode(encode)=id, sizes, hashes, btcutil wrappers, framing; hostile input: value or error, never a panic, allocation <= 5 x MaxMessagePayload, accepted input re-encodes to the consumed bytes (documented per-message exemptions).",
-      "Known finding: wtxidrelay frame is not readable. Pairs of substitutions only in thorough and only inside count/length/flag fields.",
+      "Known finding: wtxidrelay frame is not readable. Pairs of substitutions only in thorough and only inside count/length/flag fields. A stability phase decodes every accepted input twice and through every call order of the btcutil.Block/Tx accessors; the btcutil.Block.Transactions defect it found is repaired (known_findings.json, fixed).",
       "DESIGN.md §4 C08")
 check("C09", "enum",
       "exhaustive enumeration: compact grid (quick) / all 2^32 compact values (thorough, time-boxed), targets 2^k±1, header histories around every retarget boundary for mainnet/testnet3/testnet4/no-retarget-like parameter sets, all timestamp orders for MTP, all halving boundaries, against a math/big reference written from Core",
       "CompactToBig/BigToCompact/CalcWork/PoW range verdict, calcNextRequiredDifficulty and header-context acceptance through ProcessBlockHeader, median time past, subsidy schedule and 21M cap, strictly increasing cumulative work; refpow bound to Core's arith_uint256/pow test literals and the shipped genesis blocks.",
-      "Where Core's 256-bit arithmetic would wrap (powLimit > 2^232) equality is not demanded; negative inexact big.Ints are outside the property's domain.",
+      "Where Core's 256-bit arithmetic would wrap (powLimit > 2^232) equality is not demanded; negative inexact big.Ints are outside the property's domain. The header DFS also checks the easiest-difficulty bound used below checkpoints as a necessary condition (hook VerifC09EasiestDifficulty), except on min-difficulty networks.",
       "DESIGN.md §4 C09")
 
 check("C14", "enum",
@@ -86,7 +86,7 @@ check("C14", "enum",
 check("C17", "enum+dfs",
       "exhaustive enumeration of every rooted tree shape (<=8 quick / <=10 thorough nodes) x every tip x all node pairs/heights/locators/stops/maxima against naive parent walks, deep two-branch families for the skip list, and a path-sharing DFS over every interleaving of header and block deliveries on real chains",
       "Ancestor/FindFork/locators/LocateBlocks/LocateHeaders/HeightRange/IntervalBlockHashes/HeightToHashRange and the chain-view API on index-only chains; on real lab chains BestHeader, IsValidHeader, HeaderHashByHeight, BestChainHeaderForkHeight, refusal of headers below an invalid block, and equality of the final chain with a blocks-only delivery. Reference bound to the doc-comment examples and the TestLocateInventory/TestHeightToHashRange vectors.",
-      "Part (b): trees <=4 (quick; plus the 5-block configurations where the invalid block has a descendant two levels below it and a competing branch) / <=5 (thorough) blocks, one kind of invalid block, parents-first block deliveries.",
+      "Part (b): trees <=4 (quick; plus the 5-block configurations where the invalid block has a descendant two levels below it and a competing branch, and the K+1 reorganisation-failure family) / <=5 (thorough) blocks, one kind of invalid block, parents-first block deliveries; worlds with equal and with mixed per-block difficulty (most work != most blocks).",
       "DESIGN.md §4 C17")
 
 check("C06", "enum",
@@ -98,20 +98,20 @@ check("C06", "enum",
 check("C01", "enum",
       "exhaustive enumeration of a rule catalogue (every consensus rule exactly at and one past its limit, all other rules satisfied) x 15 chain contexts (tip, reorg, deferred, orphan, headers-first, template check, reopen, unrelated forks, sibling orders) x cache sizes x parameter sets, verdicts compared with an independent contextual block validator and with each other across contexts",
       "Every candidate's label is reproduced by refblock (independent serialisation, merkle, sigops, subsidy, MTP, finality, BIP30/34/65/66/68/113/141, scripts via refscript) before btcd is consulted; btcd's verdict is read from BestSnapshot/MainChainHasBlock/ChainTips after the deliveries of the context. refblock is bound to fullblocktests.Generate (182 blocks) and the shipped block data.",
-      "One rule violated per candidate; segwit/taproot always active; retargeting/min-difficulty/BIP94 parameter sets in thorough only.",
+      "One rule violated per candidate; segwit/taproot active from genesis except in the late-segwit world (activation at height 8, candidates on both sides of the boundary); orphan-sibling delivery orders; retargeting/min-difficulty/BIP94 parameter sets in thorough only.",
       "DESIGN.md §4 C01")
 check("C05", "dfs+fault+crash+vsched",
       "DFS with state hashing over operation sequences on the real ffldb vs a reference ordered-map model; every single (and second) I/O call failed in turn; every crash image (write-log prefix x dropped unsynced writes x torn last write) reopened; stateless exploration of reader/writer thread schedules under a cooperative scheduler (sync->vsync overlay) + free-running -race pass",
       "(a) every sequence of <= D bucket/key/cursor/block/prune operations in <= 3 transactions, per file-size regime and flush policy, compared op by op and dump by dump (also after reopen); (a') exhaustive treap op sequences with every earlier version re-checked; (b) fault enumeration with atomicity oracle; (c) crash enumeration with prefix-durability oracle; (d) all schedules with <= 2/3 deviations of one writer (cache commit, flush-path commit, cache commit) against readers: every snapshot is repeatable and equals the state after a prefix of the commits.",
-      "goleveldb atomic/durable per commit; directory operations durable; known findings: cursor direction change, prune deleting files before the commit is safe (3 keys).",
+      "goleveldb atomic/durable per commit; directory operations durable. Scheduler scenarios include two read-modify-write writers (lost-update oracle); bulk fetches are asked in non-disk order with a distinct region per block. The defects it found (snapshot outside the lock, region bound, treap iterator, roll-over sync, prune ordering, cursor direction change) are repaired (known_findings.json, fixed).",
       "DESIGN.md §4 C05")
 check("C10", "bfs+enum",
       "explicit-state BFS over histories of ProcessTransaction/MaybeAcceptTransaction/RemoveTransaction/RemoveDoubleSpends/ProcessOrphans/block connect/disconnect (through the real netsync handler) on the real TxPool, invariants after every transition; exhaustive replacement-threshold grid; free-running -race pass for the concurrency clause",
       "I1 no double spend, I2 spend index == pool, I3 inputs available, I4 orphan bounds, I5 the pool in dependency order passes CheckConnectBlockTemplate, I6 rejected calls and CheckMempoolAcceptance change nothing, I7 replacement rules (evicted set, <=100, absolute fee, strictly higher fee rate than every evicted tx) computed by an independent reference from the pre-state; 8 policy configurations.",
-      "Every TxPool method holds the pool mutex for its whole duration, so lock-granularity interleavings are the sequential orders the BFS covers; data races only via the -race pass (sampling).",
+      "Every TxPool method holds the pool mutex for its whole duration, so lock-granularity interleavings are the sequential orders the BFS covers; data races only via the -race pass (sampling). Worlds with witness spends, version-2 transactions with relative lock-times and a custom TxVersion. Known finding: sequence locks are not re-checked for pooled transactions after a reorganisation.",
       "DESIGN.md §4 C10")
 check("C12", "enum",
       "exhaustive enumeration of pool states (all subsets of an 8-tx universe in both submission orders + constructed limit pools) x 9 tip worlds (plain, halving, after reorg, segwit boundary, MTP ahead) x mining policies x source orders, every template validated by full consensus on a fresh identical chain and recomputed by a naive reference",
       "NewBlockTemplate succeeds; solved block accepted by ProcessBlock on a fresh chain; topological order; weight/size/sigops within policy and consensus; coinbase == subsidy + fees exactly; witness commitment correct; Fees/SigOpCosts equal naive values; UpdateBlockTime/UpdateExtraNonce keep it valid.",
-      "Known finding: Policy.BlockMaxSize is not enforced by the generator. Rate limiter off (reads the wall clock).",
+      "Known finding: Policy.BlockMaxSize is not enforced by the generator. Rate limiter off (reads the wall clock). Worlds include MTP equal to the tip time, a min-difficulty network with the clock crossing tip+20 min, and P2SH spends in the pool.",
       "DESIGN.md §4 C12")
